@@ -36,7 +36,7 @@ def main():
             f = os.path.join(root, m['file'])
             src = open(f).read()
             if m['old'] not in src:
-                print(f"{m['id']}: PATTERN NOT FOUND"); continue
+                print(f"{m['id']}: PATTERN NOT FOUND (stale mutant: the source changed)"); res.append((m['id'], m.get('kind', '?'), 'MISSED', 'stale pattern')); continue
             open(f, 'w').write(src.replace(m['old'], m['new'], 1))
             env = dict(os.environ, RXV_REPO=root, PYTHONDONTWRITEBYTECODE='1')
             detected = False; info = []
